@@ -219,3 +219,124 @@ Proof.
   - replace (1 / 2) with (INR 0 + 1 / 2) by (cbn; lra). rewrite P_C19.interp_between; cbn; [lra|lia|lra].
   - now rewrite P_C19.interp_delay_int.
 Qed.
+
+(** ** Source-text tie (translator/py2coq_c19.py, re-run on every check).
+    gen/Gen_c19.v is re-translated from eqsig/surface.py (trim_to_length, calc_surface_energy, calc_cum_abs_surface_energy,
+    get_time_shift_motions) and eqsig/fns/time_shift.py (put_array_in_2d_array, join_values_w_shifts) by symbolic execution
+    of the Python `ast` (fail closed: any statement outside the translator's whitelist aborts the run).  The theorems below
+    state that each generated definition IS the model of model/M_surface.v, for every [NumOps] instance and ALL inputs
+    inside the stated guards (outside them NumPy raises: negative padding width, reductions that do not broadcast, a row
+    start beyond the trimmed List.length).  So the shift `2 * tt / dt`, `int(max(shifts))`, the zero padding of the up-going wave,
+    the interpolation abscissa `i - shift`, the scalar / array reduction branch, the nodal sign, `cumulative_trapezoid(..,
+    initial=0)`, `0.5 * v * abs(v)`, `int(tt / dt)`, `int(stt / dt)`, the four trim / start branches and their slices, the
+    start / end extras, the clip modes, the row placement and `+-a1 + a0` are tied to the source text: a changed operand,
+    index, sign, literal or comparison changes the generated term and one of these proofs (or P_gen_c19) stops checking.
+    What stays trusted: the translator's fixed readings of the NumPy / SciPy primitives (lib/NpSurf.v: python slice
+    normalisation, slice store, broadcasting, np.pad, np.arange, np.interp on the sample grid with left = right = 0, int()
+    as truncation; lib/NpList.v: cumtrapz, cumsum, diff) -- exercised by the correspondence of this run -- and the inputs
+    as read by the translator: asig.npts = len(asig.values); travel_times a scalar or an array (pyarg); up_red and down_red
+    both scalars or both arrays (pyreds; the mixed forms are not represented); a single travel time returns row 0 (pyarr).
+    Not covered: join_sig_w_time_shift, time_indices (not part of C19's model). *)
+From Coq Require Import String.
+From EQ Require Import lib.NpSurf gen.Gen_c19 proofs.P_gen_c19.
+
+Theorem C19_trim_to_length_is_source : forall (T : Type) (ops : NumOps T) (vals : list (list T)) (n : nat) (tts : list T)
+    (dt : T) (trim start : bool) (stt : T),
+  List.length vals = List.length tts ->
+  (start = true -> trim = true -> forall d, In d (depth_shifts dt tts) -> (start_shift dt stt - d <= Z.of_nat n)%Z) ->
+  gen_trim_to_length vals (Z.of_nat n) tts dt trim start stt =
+  trim_to_length n (depth_shifts dt tts) (start_shift dt stt) trim start vals.
+Proof. exact (@P_gen_c19.gen_trim_to_length_eq). Qed.
+
+(** the guards of the three public functions, spelled out:
+    padding width >= 0;  array reductions have one entry per travel time;  with trim and start every row start is <= npts *)
+Definition C19_source_guards {T : Type} {ops : NumOps T} (dt : T) (a : list T) (tts : pyarg T) (reds : pyreds T) (stt : T)
+    (trim start : bool) : Prop :=
+  let l := P_gen_c19.arg_list tts in
+  (0 <= ntrunc (amax (shifts_of dt l)))%Z /\
+  match reds with RedScalars _ _ => True | RedArrays u d => List.length u = List.length l /\ List.length d = List.length l end /\
+  (start = true -> trim = true -> forall d, In d (depth_shifts dt l) -> (start_shift dt stt - d <= Z.of_nat (List.length a))%Z).
+(** what python returns for rows m: row 0 itself when there is a single travel time *)
+Definition C19_py_rows {T : Type} (l : list T) (m : list (list T)) : pyarr T :=
+  if (Z.of_nat (List.length l) =? 1)%Z then Arr1 (nth 0 m []) else Arr2 m.
+
+Theorem C19_surface_energy_is_source : forall (T : Type) (ops : NumOps T) (dt : T) (a : list T) (tts : pyarg T)
+    (nodal : bool) (reds : pyreds T) (stt : T) (trim start : bool),
+  C19_source_guards dt a tts reds stt trim start ->
+  gen_calc_surface_energy dt a tts nodal reds stt trim start =
+  C19_py_rows (P_gen_c19.arg_list tts)
+    (surface_energy nodal trim start dt a (P_gen_c19.arg_list tts) (P_gen_c19.red_up reds) (P_gen_c19.red_down reds) stt).
+Proof. intros T ops dt a tts nodal reds stt trim start (G1 & G2 & G3). now apply P_gen_c19.gen_calc_surface_energy_eq. Qed.
+Theorem C19_cum_abs_surface_energy_is_source : forall (T : Type) (ops : NumOps T) (dt : T) (a : list T) (tts : pyarg T)
+    (nodal : bool) (reds : pyreds T) (stt : T) (trim start : bool),
+  C19_source_guards dt a tts reds stt trim start ->
+  gen_calc_cum_abs_surface_energy dt a tts nodal reds stt trim start =
+  C19_py_rows (P_gen_c19.arg_list tts)
+    (cum_abs_surface_energy nodal trim start dt a (P_gen_c19.arg_list tts) (P_gen_c19.red_up reds) (P_gen_c19.red_down reds) stt).
+Proof. intros T ops dt a tts nodal reds stt trim start (G1 & G2 & G3). now apply P_gen_c19.gen_calc_cum_abs_surface_energy_eq. Qed.
+Theorem C19_time_shift_motions_is_source : forall (T : Type) (ops : NumOps T) (dt : T) (a : list T) (tts : pyarg T)
+    (nodal : bool) (reds : pyreds T) (stt : T) (trim start : bool),
+  C19_source_guards dt a tts reds stt trim start ->
+  gen_get_time_shift_motions dt a tts nodal reds stt trim start =
+  C19_py_rows (P_gen_c19.arg_list tts)
+    (time_shift_motions nodal trim start dt a (P_gen_c19.arg_list tts) (P_gen_c19.red_up reds) (P_gen_c19.red_down reds) stt).
+Proof. intros T ops dt a tts nodal reds stt trim start (G1 & G2 & G3). now apply P_gen_c19.gen_get_time_shift_motions_eq. Qed.
+(** the readings of the arguments *)
+Theorem C19_source_argument_readings : forall (T : Type) (ops : NumOps T) (x : T) (v u d : list T) (p q : T),
+  P_gen_c19.arg_list (ArgScalar x) = [x] /\ P_gen_c19.arg_list (ArgArr v) = v /\
+  P_gen_c19.red_up (RedScalars p q) = RScalar p /\ P_gen_c19.red_down (RedScalars p q) = RScalar q /\
+  P_gen_c19.red_up (RedArrays u d) = RArr u /\ P_gen_c19.red_down (RedArrays u d) = RArr d.
+Proof. intros. repeat split. Qed.
+(** at R, on the domain of the code (dt > 0, travel times >= 0), the padding guard holds *)
+Theorem C19_surface_energy_is_source_R : forall (dt : R) (a : list R) (tts : pyarg R) (nodal : bool) (reds : pyreds R) (stt : R)
+    (trim start : bool),
+  0 < dt -> (forall t, In t (P_gen_c19.arg_list tts) -> 0 <= t) ->
+  match reds with RedScalars _ _ => True
+  | RedArrays u d => List.length u = List.length (P_gen_c19.arg_list tts) /\ List.length d = List.length (P_gen_c19.arg_list tts) end ->
+  (start = true -> trim = true -> forall d, In d (depth_shifts dt (P_gen_c19.arg_list tts)) ->
+     (start_shift dt stt - d <= Z.of_nat (List.length a))%Z) ->
+  let l := P_gen_c19.arg_list tts in let ur := P_gen_c19.red_up reds in let dr := P_gen_c19.red_down reds in
+  gen_calc_surface_energy dt a tts nodal reds stt trim start = C19_py_rows l (surface_energy nodal trim start dt a l ur dr stt) /\
+  gen_calc_cum_abs_surface_energy dt a tts nodal reds stt trim start =
+    C19_py_rows l (cum_abs_surface_energy nodal trim start dt a l ur dr stt) /\
+  gen_get_time_shift_motions dt a tts nodal reds stt trim start = C19_py_rows l (time_shift_motions nodal trim start dt a l ur dr stt).
+Proof.
+  intros dt a tts nodal reds stt trim start Hdt Htt Hr Ht. pose proof (P_gen_c19.pad_guard_R dt _ Hdt Htt) as Hp.
+  repeat split; [apply P_gen_c19.gen_calc_surface_energy_eq | apply P_gen_c19.gen_calc_cum_abs_surface_energy_eq
+                 | apply P_gen_c19.gen_get_time_shift_motions_eq]; assumption.
+Qed.
+
+(** eqsig/fns/time_shift.py; clip: 'start' = 1, 'end' = 2, 'both' = 3, anything else (the default 'none') = 0 *)
+Theorem C19_put_array_is_source : forall (T : Type) (ops : NumOps T) (vals : list T) (shifts : list Z) (clip : string),
+  gen_put_array_in_2d_array vals shifts clip = put_in_2d vals shifts (P_gen_c19.clip_of_string clip).
+Proof. exact (@P_gen_c19.gen_put_array_in_2d_array_eq). Qed.
+Theorem C19_clip_codes : P_gen_c19.clip_of_string "none"%string = 0%nat /\ P_gen_c19.clip_of_string "start"%string = 1%nat /\
+  P_gen_c19.clip_of_string "end"%string = 2%nat /\ P_gen_c19.clip_of_string "both"%string = 3%nat.
+Proof. repeat split. Qed.
+(** jtype 'add' / 'sub'; any other string falls through both tests and the function returns None *)
+Theorem C19_join_is_source : forall (T : Type) (ops : NumOps T) (vals : list T) (shifts : list Z),
+  gen_join_values_w_shifts vals shifts "add"%string = Some (join_w_shifts true vals shifts) /\
+  gen_join_values_w_shifts vals shifts "sub"%string = Some (join_w_shifts false vals shifts) /\
+  (forall s, String.eqb s "add"%string = false -> String.eqb s "sub"%string = false -> gen_join_values_w_shifts vals shifts s = None).
+Proof. exact (@P_gen_c19.gen_join_values_w_shifts_eq). Qed.
+Theorem C19_defaults_are_source :
+  @gen_calc_surface_energy_default_nodal = true /\ @gen_calc_cum_abs_surface_energy_default_nodal = true /\
+  @gen_get_time_shift_motions_default_nodal = true /\
+  @gen_calc_surface_energy_default_trim = false /\ @gen_calc_surface_energy_default_start = false /\
+  @gen_calc_cum_abs_surface_energy_default_trim = false /\ @gen_calc_cum_abs_surface_energy_default_start = false /\
+  @gen_get_time_shift_motions_default_trim = false /\ @gen_get_time_shift_motions_default_start = false /\
+  @gen_trim_to_length_default_trim = false /\ @gen_trim_to_length_default_start = false /\
+  @gen_calc_surface_energy_default_stt R _ = 0 /\ @gen_calc_surface_energy_default_up_red R _ = 1 /\
+  @gen_calc_surface_energy_default_down_red R _ = 1 /\ @gen_trim_to_length_default_s2s_travel_time R _ = 0 /\
+  @gen_put_array_in_2d_array_default_clip = "none"%string /\ @gen_join_values_w_shifts_default_jtype = "add"%string.
+Proof. repeat split. Qed.
+
+Example C19_source_nonvacuous :
+  C19_source_guards 1 [1; 2; 3] (ArgArr [0; 2]) (RedArrays [1; 1] [1; 1]) 2 false true /\
+  gen_put_array_in_2d_array [1; 2; 3] [-2; 0; 1]%Z "both"%string = [[3; 0; 0]; [1; 2; 3]; [0; 1; 2]].
+Proof.
+  split.
+  - unfold C19_source_guards. cbv zeta. split; [|split; [split; reflexivity|intros _ Hf; discriminate Hf]].
+    apply (P_gen_c19.pad_guard_R 1 [0; 2]); [lra|]. intros t [<-|[<-|[]]]; lra.
+  - rewrite C19_put_array_is_source. reflexivity.
+Qed.
